@@ -5,6 +5,9 @@
      d_*  RouteAuthenticators.Authenticate called directly,
      b_*  Context.Authorize (the entry point of generated servers): result + principal/scopes left in the request context,
      a_tr the untyped API handler (newSecureAPI around bind + handle) serving the request.
+   A history case (CHist) is 2-5 requests on ONE api instance whose schemes are checked by the library's own
+   security.* authenticators over a table-driven callback; every request is compared with the single-request model
+   (= what a fresh instance answers, which is observed too).
    Each observation carries the trace of instrumented calls (authenticators, authorizer, consumer, handler, response). *)
 From V Require Export CaseLib SecuritySpec.
 
@@ -53,20 +56,59 @@ Fixpoint alt_eqb (a b : alt) : bool :=
   | _, _ => false
   end.
 
+(* HEAD requests: errors.ServeError writes no body, so the message of a refusal is not observable. The model's
+   response is compared without its message, and the predicate is evaluated with the expected message filled in
+   (it then constrains the status only). *)
+Definition head_view (head : bool) (ev : event) : event :=
+  match ev with Respond c m => if head then Respond c 0 else ev | _ => ev end.
+Definition restore_msg (head : bool) (out : oracle) (alts : list alt) (az : authorizer) (tr : list event) : list event :=
+  if head then
+    match expected_refusal out alts az tr with
+    | Some (Some e) => map (fun ev => match ev with Respond c _ => if 400 <=? c then Respond c (msg_of e) else ev | _ => ev end) tr
+    | _ => tr
+    end
+  else tr.
+
+(* one request of a history: which operation, the credentials the request carries per scheme, parameters valid,
+   observed through Context.Authorize (via = true) or the untyped handler, HEAD or not; what the shared instance
+   answered and what a fresh instance answers to the same single request *)
+Record hcall := mk_hcall { hc_op : nat; hc_creds : list (nat * nat); hc_bind : bool; hc_via : bool; hc_head : bool;
+                           hc_tr : list event; hc_res : authz; hc_ftr : list event; hc_fres : authz }.
+
+(* error values of the harness's validation callbacks: unknown credential / insufficient scope, per scheme *)
+Definition h_unk (s : nat) : err := if Nat.eqb s 3 then EPlain 43 else EStatus 401 (40 + s).
+Definition h_insuf (s : nat) : err := EStatus 403 (50 + s).
+
 Inductive case :=
-| CSec (alts : list alt) (outs : list (nat * outcome)) (az : option (list (option principal * err))) (bind_ok : bool)
+| CSec (alts : list alt) (outs : list (nat * outcome)) (az : option (list (option principal * err))) (bind_ok head : bool)
        (d_tr : list event) (d_applies : bool) (d_usr : option principal) (d_err : option err) (d_route : option nat)
        (b_tr : list event) (b_res : authz)
-       (a_tr : list event).
+       (a_tr : list event)
+| CHist (ops : list (list alt)) (scoped : list nat) (grants : list grant) (az : option (list (option principal * err)))
+        (calls : list hcall).
+
+Definition hist_call_check (ops : list (list alt)) (scoped : list nat) (grants : list grant) (azf : authorizer)
+           (c : hcall) : bool * bool :=
+  let alts := nth (hc_op c) ops [] in
+  let out := cred_oracle (fun s => existsb (Nat.eqb s) scoped) h_unk h_insuf grants (hc_creds c) in
+  if hc_via c then
+    let '(bt, bres) := authorize out alts azf in
+    (trace_eqb (hc_tr c) bt && authz_eqb (hc_res c) bres && trace_eqb (hc_ftr c) bt && authz_eqb (hc_fres c) bres,
+     authorize_ok out alts azf (hc_tr c) (hc_res c) && authorize_ok out alts azf (hc_ftr c) (hc_fres c))
+  else
+    let at_ := map (head_view (hc_head c)) (map erase (secure_handler out alts azf (hc_bind c))) in
+    (trace_eqb (hc_tr c) at_ && trace_eqb (hc_ftr c) at_,
+     sec_ok out alts azf (hc_bind c) false (restore_msg (hc_head c) out alts azf (hc_tr c)) &&
+     sec_ok out alts azf (hc_bind c) false (restore_msg (hc_head c) out alts azf (hc_ftr c))).
 
 Definition check_case (c : case) : N :=
   match c with
-  | CSec alts outs az bind_ok d_tr d_applies d_usr d_err d_route b_tr b_res a_tr =>
+  | CSec alts outs az bind_ok head d_tr d_applies d_usr d_err d_route b_tr b_res a_tr =>
     let out := oracle_of outs in
     let azf := authorizer_of az in
     let '(mt, mres) := auth_alts out alts in
     let '(bt, bres) := authorize out alts azf in
-    let at_ := map erase (secure_handler out alts azf bind_ok) in
+    let at_ := map (head_view head) (map erase (secure_handler out alts azf bind_ok)) in
     let granted := d_applies && negb (is_some d_err) in
     let corr :=
       (* direct *)
@@ -84,6 +126,10 @@ Definition check_case (c : case) : N :=
     let prop :=
       authenticate_ok out alts d_tr d_applies d_usr d_err &&
       authorize_ok out alts azf b_tr b_res &&
-      sec_ok out alts azf bind_ok false a_tr in
+      sec_ok out alts azf bind_ok false (restore_msg head out alts azf a_tr) in
     verdict corr prop
+  | CHist ops scoped grants az calls =>
+    let azf := authorizer_of az in
+    let rs := map (hist_call_check ops scoped grants azf) calls in
+    verdict (forallb fst rs) (forallb snd rs)
   end.
